@@ -44,6 +44,10 @@ Skeletons2 == {
   << "a", ",", "b", "?B", "c" >>, << "(", "a", "?B", "b", ")", "?B", "c" >>,
   << "a", "?B", "(", "b", "?B", "c", ")" >>, << "(", "a", ",", "b", ")", "?B", "(", "c", ",", "d", ")" >>,
   << "f", "(", "(", "a", ",", "b", ")", ")" >>,
+  << "(", "(", "a", ",", "b", ")", ",", ")" >>, << "(", "a", ",", "b", ")", "," >>, << "(", ")", "," >>,
+  << "(", "(", "a", ",", "b", ")", ",", "c", ")" >>, << "f", "(", "(", "a", ",", "b", ")", ",", "c", ")" >>,
+  << "(", "a", ",", "(", "b", ",", "c", ")", ")" >>, << "(", "(", "a", ",", ")", ",", ")" >>,
+  << "t", "[", "(", "a", ",", "b", ")", ",", "c", "]" >>,
   \* literals
   << "2", "?B", "3" >>, << "1.5", "?B", "a" >>, << "True", "?B", "a" >>, << "a", "?B", "False" >>,
   << "?U", "2", "?B", "a" >>, << "2", "**", "?U", "1" >>, << "a", "**", "?U", "b", "**", "c" >>
